@@ -122,6 +122,35 @@ theorem step_cumulative (base prev : Content) (n1 n2 : String) (b1 b2 : List Ite
   exact ⟨_, _, _, rfl, by simp [Board.content, inheritedOf, content_is_own_ops],
     by simp [Board.content, inheritedOf, content_is_own_ops]⟩
 
+/-- the running contents of a block of steps: each step overlays its own declarations on its predecessor's content -/
+def stepContents (prev : Content) : List (String × List Item) → List Content
+  | [] => []
+  | (_, body) :: rest => applyOps prev (ownOps body) :: stepContents (applyOps prev (ownOps body)) rest
+
+/-- **steps_cumulative_all**: `step_cumulative` for a block of any length — the contents of the boards of a `steps`
+    block are the running overlay, board by board, whatever the enclosing board's content `base` is -/
+theorem steps_cumulative_all : ∀ (bs : List (String × List Item)) (base prev : Content),
+    (evalBoards .step base prev bs).map (fun b => b.2.2.content) = stepContents prev bs
+  | [], base, prev => by simp [evalBoards_nil, stepContents]
+  | (n, body) :: rest, base, prev => by
+    rw [evalBoards_cons]
+    simp only [List.map_cons, stepContents, Board.content, inheritedOf, content_is_own_ops, List.cons.injEq, true_and]
+    exact steps_cumulative_all rest base _
+
+theorem applyOps_append (c : Content) (xs ys : List Op) : applyOps c (xs ++ ys) = applyOps (applyOps c xs) ys := by
+  simp [applyOps, List.foldl_append]
+
+/-- **step_k_is_all_earlier_steps**: the k-th step of a block (any k, any block) shows the inherited content overlaid
+    with the declarations of steps 0..k in source order — and nothing of the steps after it -/
+theorem step_k_is_all_earlier_steps : ∀ (pre : List (String × List Item)) (n : String) (body : List Item)
+    (post : List (String × List Item)) (prev : Content),
+    (stepContents prev (pre ++ (n, body) :: post))[pre.length]? =
+      some (applyOps prev ((pre ++ [(n, body)]).flatMap fun x => ownOps x.2))
+  | [], n, body, post, prev => by simp [stepContents]
+  | (m, b) :: pre, n, body, post, prev => by
+    simp only [List.cons_append, stepContents, List.length_cons, List.getElem?_cons_succ, List.flatMap_cons]
+    rw [step_k_is_all_earlier_steps pre n body post _, applyOps_append]
+
 theorem has_applyOp (c : Content) (n : String) (o : Op) (hc : c.has n = true) (ho : o ≠ .del n) :
     (applyOp c o).has n = true := by
   unfold Content.has at *
@@ -201,5 +230,9 @@ example : ((evalProg demo).children.map fun x => (x.2.1, x.2.2.content.map (·.1
     [("s1", ["a", "b", "c"]), ("s2", ["a"])] := by
   simp [evalProg, demo, evalItems_op, evalItems_boards, evalItems_nil, evalBoards_cons, evalBoards_nil, inheritedOf,
     applyOp, Content.has, Board.content, Board.children, setAttr]
+
+example : (stepContents [] [("1", [.op (.decl "a")]), ("2", [.op (.decl "b")]), ("3", [.op (.del "a")])]).map (·.map (·.1)) =
+    [["a"], ["a", "b"], ["b"]] := by
+  simp [stepContents, ownOps, applyOps, applyOp, Content.has]
 
 end D2V.Boards
